@@ -2574,6 +2574,724 @@ fn stream_save_after_crash(rep: &mut Report, m: &mut Model, root: &Rng, thorough
     }
 }
 
+// ------------------------------------------------------------------ stream: op sequences on a router, then snapshot / restore of the state they reach
+
+/// Oracle classes whose verdict is kept as an observation (not a violation) until the coordinator
+/// has listed them as known findings or applied the proposed repair (proposed/C07-*.diff).
+const CANDIDATE_CLASSES: &[&str] = &[
+    "tensor_store.graph_tensor.restore/edge_ids_renumbered",
+    "tensor_store.graph_tensor.restore/edge_data_attached_to_other_edge",
+    "tensor_store.graph_tensor.merge/deleted_edges_reappear_in_incoming",
+    "tensor_store.blob_log.snapshot/garbage_marks_not_restored",
+];
+
+impl Seen {
+    /// a failure of the property found on the real outputs: a violation, or (candidate classes) an observation
+    fn finding(&mut self, rep: &mut Report, class: &str, what: &str, input: J) {
+        if CANDIDATE_CLASSES.contains(&class) {
+            let n = self.0.entry(class.to_string()).or_insert(0);
+            *n += 1;
+            rep.hit(&format!("candidate.{class}"));
+            if *n <= 1 {
+                rep.observe(json!({"candidate_finding": class, "what": what, "input": input}));
+            }
+        } else {
+            self.violation(rep, class, what, input);
+        }
+    }
+}
+
+fn enc_data_m(d: &TensorData) -> String {
+    let s = enc_data(d);
+    if s.is_empty() {
+        "-".into()
+    } else {
+        s
+    }
+}
+
+fn canon_data(s: &str) -> String {
+    if s == "-" || s == "notfound" {
+        return s.to_string();
+    }
+    let mut f: Vec<&str> = s.split('|').collect();
+    f.sort_unstable();
+    f.join("|")
+}
+
+fn canon_entry(e: &str) -> String {
+    match e.split_once('~') {
+        Some((k, d)) => format!("{k}~{}", canon_data(d)),
+        None => e.to_string(),
+    }
+}
+
+fn canon_entries(s: &str, sort: bool) -> String {
+    if s == "-" {
+        return s.to_string();
+    }
+    let mut v: Vec<String> = s.split('&').map(canon_entry).collect();
+    if sort {
+        v.sort();
+    }
+    v.join("&")
+}
+
+/// canonical form of the driver's `rt_dump`: map-like sections sorted (cache slots keep their order)
+fn canon_dump(s: &str) -> String {
+    s.split('#')
+        .map(|sec| {
+            if let Some(x) = sec.strip_prefix("emb=") {
+                if x == "-" {
+                    return sec.to_string();
+                }
+                let mut v: Vec<(u64, &str)> = x.split('/').map(|e| (e.split(':').next().unwrap_or("0").parse().unwrap_or(0), e)).collect();
+                v.sort();
+                format!("emb={}", v.iter().map(|e| e.1).collect::<Vec<_>>().join("/"))
+            } else if let Some(x) = sec.strip_prefix("md=") {
+                format!("md={}", canon_entries(x, true))
+            } else if let Some(x) = sec.strip_prefix("cache=") {
+                match x.split_once(':') {
+                    Some((cap, es)) => format!("cache={cap}:{}", canon_entries(es, false)),
+                    None => sec.to_string(),
+                }
+            } else {
+                sec.to_string()
+            }
+        })
+        .collect::<Vec<_>>()
+        .join("#")
+}
+
+fn join_or(sep: &str, v: &[String]) -> String {
+    if v.is_empty() {
+        "-".into()
+    } else {
+        v.join(sep)
+    }
+}
+
+/// the real router in the format of the driver's `rt_dump`
+fn real_dump(rt: &SlabRouter) -> String {
+    let total = rt.index.total_entries();
+    let vocab: Vec<String> = (0..total).map(|i| rt.index.key_for(EntityId::new(i as u64)).map_or("x".to_string(), |k| hexs(&k))).collect();
+    let mut embs = rt.embeddings.entries();
+    embs.sort_by_key(|e| e.0.as_u64());
+    let emb: Vec<String> = embs.iter().map(|(id, v)| format!("{}:{}", id.as_u64(), nats(&bits32(v)))).collect();
+    let md: Vec<String> = rt.metadata.scan("").iter().map(|(k, d)| format!("{}~{}", hexs(k), enc_data_m(d))).collect();
+    let cache: Vec<String> = rt.cache.scan_prefix("").iter().map(|k| format!("{}~{}", hexs(k), rt.cache.get(k).map_or("notfound".to_string(), |d| enc_data_m(&d)))).collect();
+    canon_dump(&format!(
+        "idx={}#live={}#dim={}#emb={}#md={}#cache={}:{}#len={}#count={}",
+        join_or(",", &vocab),
+        rt.index.len(),
+        rt.embeddings.dimension(),
+        join_or("/", &emb),
+        join_or("&", &md),
+        rt.cache.capacity(),
+        join_or("&", &cache),
+        rt.len(),
+        rt.len() + rt.index.len()
+    ))
+}
+
+fn show_pairs(v: &[(u64, u64)]) -> String {
+    join_or(",", &v.iter().map(|(a, b)| format!("{a}:{b}")).collect::<Vec<_>>())
+}
+
+/// the real graph tensor in the format of the driver's `g_dump` (incoming lists sorted: their order is
+/// the insertion order, which a restore legitimately changes)
+fn real_gdump(rt: &SlabRouter, nodes: &[u64], ids: &[u64], types: &[String]) -> String {
+    let g = &rt.graph;
+    let out: Vec<String> = nodes.iter().map(|n| format!("{n}>{}", show_pairs(&g.outgoing(EntityId::new(*n)).iter().map(|(t, e)| (t.as_u64(), e.as_u64())).collect::<Vec<_>>()))).collect();
+    let inc: Vec<String> = nodes
+        .iter()
+        .map(|n| {
+            let mut v: Vec<(u64, u64)> = g.incoming(EntityId::new(*n)).iter().map(|(t, e)| (t.as_u64(), e.as_u64())).collect();
+            v.sort();
+            format!("{n}<{}", show_pairs(&v))
+        })
+        .collect();
+    let data: Vec<String> = ids.iter().map(|i| format!("{i}~{}", g.get_edge_data(tensor_store::EdgeId::new(*i)).map_or("notfound".to_string(), |d| enc_data_m(&d)))).collect();
+    let _ = types;
+    format!("out={}#in={}#data={}#pending={} edges={}", join_or("|", &out), join_or("|", &inc), join_or("&", &data), g.pending_count(), g.edge_count())
+}
+
+/// canonical form of the driver's `g_dump`: incoming lists sorted, the counters the real graph exposes
+fn canon_gdump(s: &str) -> String {
+    let mut out = vec![];
+    for sec in s.split('#') {
+        if let Some(x) = sec.strip_prefix("in=") {
+            let items: Vec<String> = x
+                .split('|')
+                .map(|it| match it.split_once('<') {
+                    Some((n, ps)) if ps != "-" => {
+                        let mut v: Vec<(u64, u64)> = ps.split(',').filter_map(|p| p.split_once(':').map(|(a, b)| (a.parse().unwrap_or(0), b.parse().unwrap_or(0)))).collect();
+                        v.sort();
+                        format!("{n}<{}", show_pairs(&v))
+                    }
+                    _ => it.to_string(),
+                })
+                .collect();
+            out.push(format!("in={}", items.join("|")));
+        } else if let Some(x) = sec.strip_prefix("data=") {
+            out.push(format!("data={}", canon_entries(x, false)));
+        } else if sec.starts_with("next=") {
+            // next= max= pending= edges= types=: keep what the real graph exposes
+            let kv: BTreeMap<&str, &str> = sec.split(' ').filter_map(|p| p.split_once('=')).collect();
+            out.push(format!("pending={} edges={}", kv.get("pending").unwrap_or(&"?"), kv.get("edges").unwrap_or(&"?")));
+        } else {
+            out.push(sec.to_string());
+        }
+    }
+    out.join("#")
+}
+
+fn real_bdump(rt: &SlabRouter, hashes: &[tensor_store::ChunkHash]) -> String {
+    let items: Vec<String> = hashes.iter().map(|h| format!("{}:{}:{}", h.as_u64(), rt.blobs.get(h).map_or("none".to_string(), |d| hex(&d)), u8::from(rt.blobs.contains(h)))).collect();
+    format!("{}#chunks={} bytes={} segments={}", join_or(",", &items), rt.blobs.chunk_count(), rt.blobs.total_bytes(), rt.blobs.segment_count())
+}
+
+/// which of the two graph-tensor repairs the real code has (the model mirrors the code as it is)
+fn probe_graph_fixes() -> (bool, bool) {
+    let rt = SlabRouter::new();
+    rt.graph.add_edge(EntityId::new(5), EntityId::new(1), "a", true);
+    let e1 = rt.graph.add_edge(EntityId::new(2), EntityId::new(3), "b", false);
+    let keep = match rt.to_bytes().ok().and_then(|b| SlabRouter::from_bytes(&b).ok()) {
+        Some(l) => l.graph.outgoing(EntityId::new(2)) == vec![(EntityId::new(3), e1)],
+        None => false,
+    };
+    let rt = SlabRouter::new();
+    let e0 = rt.graph.add_edge(EntityId::new(1), EntityId::new(2), "a", true);
+    rt.graph.delete_edge(e0);
+    rt.graph.merge();
+    let prune = rt.graph.incoming(EntityId::new(2)).is_empty();
+    (keep, prune)
+}
+
+struct RouterCase {
+    rt: SlabRouter,
+    dim: usize,
+    cap: usize,
+    nodes: Vec<u64>,
+    edge_ids: Vec<u64>,
+    hashes: Vec<tensor_store::ChunkHash>,
+    live: bool,
+    trace: Vec<String>,
+}
+
+impl RouterCase {
+    fn ask(&mut self, rep: &mut Report, m: &mut Model, stream: &str, line: &str, imp: &str, canon: fn(&str) -> String) {
+        self.trace.push(line.to_string());
+        if !self.live {
+            return;
+        }
+        let ans = canon(&m.ask(line));
+        let trace = &self.trace;
+        if !rep.compare(stream, || json!({"ops": trace.iter().rev().take(40).rev().collect::<Vec<_>>(), "dim": self.dim, "cap": self.cap}), imp, &ans) {
+            // after the first disagreement the run continues real-only: the oracles keep running
+            self.live = false;
+        }
+    }
+}
+
+fn ident(s: &str) -> String {
+    s.to_string()
+}
+
+fn gen_router_key(r: &mut Rng) -> String {
+    match r.below(16) {
+        0..=4 => format!("emb:{}", r.below(5)),
+        5..=7 => format!("_cache:{}", r.below(7)),
+        8 => format!("node:{}", r.below(3)),
+        9 => format!("edge:{}", r.below(3)),
+        10 => format!("table:t{}", r.below(2)),
+        11 => "ключ:✓".to_string(),
+        12 => String::new(),
+        13 => "emb:".to_string(),
+        _ => format!("user:{}", r.below(4)),
+    }
+}
+
+fn gen_small_value(r: &mut Rng) -> TensorValue {
+    loop {
+        let (v, _) = gen_value(r);
+        match &v {
+            TensorValue::Vector(x) if x.len() > 48 => continue,
+            TensorValue::Scalar(ScalarValue::String(s)) if s.len() > 64 => continue,
+            TensorValue::Scalar(ScalarValue::Bytes(b)) if b.len() > 64 => continue,
+            TensorValue::Pointer(s) if s.len() > 64 => continue,
+            TensorValue::Pointers(ps) if ps.iter().any(|s| s.len() > 64) => continue,
+            _ => return v,
+        }
+    }
+}
+
+/// a value for `key`; `emb:` keys get an `_embedding` field of the slab's dimension, of another
+/// length, of another kind, or none at all
+fn gen_router_data(r: &mut Rng, rep: &mut Report, key: &str, dim: usize) -> TensorData {
+    let mut d = TensorData::new();
+    for _ in 0..r.below(3) {
+        let f = *r.pick(&["a", "b", "vector", "ids", "", "поле"]);
+        d.set(f, gen_small_value(r));
+    }
+    if key.starts_with("emb:") || r.chance(1, 12) {
+        match r.below(10) {
+            0 => rep.hit("router.put.emb.no_embedding_field"),
+            1 => {
+                rep.hit("router.put.emb.embedding_not_a_vector");
+                d.set("_embedding", TensorValue::Scalar(ScalarValue::Int(7)));
+            }
+            2 => {
+                rep.hit("router.put.emb.wrong_dimension");
+                let n = if r.chance(1, 2) { dim + 1 } else { r.below(dim as u64) as usize };
+                d.set("_embedding", TensorValue::Vector(gen_vec_kind(r, n, 0)));
+            }
+            3 => {
+                rep.hit("router.put.emb.sparse_value");
+                d.set("_embedding", TensorValue::Sparse(gen_sparse(r)));
+            }
+            _ => {
+                rep.hit("router.put.emb.right_dimension");
+                // at and above the tensor-train threshold only mostly-zero vectors (sparse form: exact);
+                // dense long vectors are the business of the `emb` and `stores` streams
+                let k = if dim >= TT_MIN { 2 } else { *r.pick(&[0u64, 2, 4, 5]) };
+                d.set("_embedding", TensorValue::Vector(gen_vec_kind(r, dim, k)));
+            }
+        }
+    }
+    d
+}
+
+fn router_sections_diff(a: &str, b: &str) -> Vec<String> {
+    let sa: Vec<&str> = a.split('#').collect();
+    let sb: Vec<&str> = b.split('#').collect();
+    let mut out = vec![];
+    for (x, y) in sa.iter().zip(sb.iter()) {
+        if x != y {
+            out.push(x.split('=').next().unwrap_or("?").to_string());
+        }
+    }
+    if sa.len() != sb.len() {
+        out.push("shape".into());
+    }
+    out
+}
+
+/// snapshot + restore of the state the case has reached, through one of the three v3 forms; model:
+/// `rt_snap` (register 1 := restore(snapshot(register 0)), register 0 := what the save leaves)
+fn router_snapshot_check(rep: &mut Report, m: &mut Model, seen: &mut Seen, c: &mut RouterCase, fmt: Fmt, sc: &mut Scratch, types: &[String]) -> Option<SlabRouter> {
+    let before = real_dump(&c.rt);
+    let gbefore = real_gdump(&c.rt, &c.nodes, &c.edge_ids, types);
+    let bbefore = real_bdump(&c.rt, &c.hashes);
+    let path = sc.fresh("router.snap");
+    let input = |c: &RouterCase| json!({"format": fmt.name(), "embedding_dim": c.dim, "cache_capacity": c.cap, "ops": c.trace.iter().rev().take(60).rev().collect::<Vec<_>>()});
+    rep.hit(&format!("router.snapshot.{}", fmt.name()));
+    match save_load(&c.rt, fmt, &path) {
+        Err(e) => {
+            seen.violation(rep, &format!("tensor_store.snapshot.{}/save_or_load_failed", fmt.name()), &e, input(c));
+            None
+        }
+        Ok((loaded, bytes)) => {
+            let site = format!("tensor_store.snapshot.{}", fmt.name());
+            // --- oracles on the real outputs
+            let after = real_dump(&loaded);
+            for sec in router_sections_diff(&before, &after) {
+                let kind = match sec.as_str() {
+                    "idx" | "live" => "entity_index_not_restored",
+                    "dim" => "embedding_dimension_not_restored",
+                    "emb" => "embedding_slab_not_restored",
+                    "md" => "metadata_not_restored",
+                    "cache" => "cache_not_restored",
+                    _ => "counters_not_restored",
+                };
+                seen.violation(rep, &format!("{site}/{kind}"), "after an op sequence, the loaded router differs from the saved one", json!({"case": input(c), "saved": before.chars().take(1500).collect::<String>(), "loaded": after.chars().take(1500).collect::<String>()}));
+            }
+            let self_after = real_dump(&c.rt);
+            if self_after != before {
+                seen.violation(rep, &format!("{site}/save_changes_the_saved_store"), "saving changed the key-addressed content of the store being saved", json!({"case": input(c)}));
+            }
+            let gafter = real_gdump(&loaded, &c.nodes, &c.edge_ids, types);
+            let gself = real_gdump(&c.rt, &c.nodes, &c.edge_ids, types);
+            graph_oracle(rep, seen, &gbefore, &gafter, &gself, &input(c));
+            let bafter = real_bdump(&loaded, &c.hashes);
+            if bafter != bbefore {
+                let strip = |s: &str| s.split('#').next().unwrap_or("").split(',').map(|it| it.rsplitn(2, ':').nth(1).unwrap_or("").to_string()).collect::<Vec<_>>().join(",");
+                let class = if strip(&bafter) == strip(&bbefore) && bafter.split('#').nth(1) == bbefore.split('#').nth(1) {
+                    "tensor_store.blob_log.snapshot/garbage_marks_not_restored"
+                } else {
+                    "tensor_store.blob_log.snapshot/blob_log_not_restored"
+                };
+                seen.finding(rep, class, "the blob log of the loaded router answers differently (hash:data:contains, counters)", json!({"case": input(c), "saved": bbefore, "loaded": bafter}));
+            }
+            // header of the two file forms
+            if fmt != Fmt::Bytes && bytes.len() >= 20 {
+                let count = u64::from_le_bytes(bytes[12..20].try_into().unwrap());
+                if count != (c.rt.len() + c.rt.index.len()) as u64 {
+                    rep.hit("router.snapshot.header_count_differs");
+                }
+            }
+            // --- correspondence
+            if c.live {
+                let ok = m.ask("rt_snap 1");
+                let want = format!("ok {}", c.rt.len() + c.rt.index.len());
+                c.ask_noop(rep, "router.snapshot", "rt_snap 1", &want, &ok);
+                c.ask(rep, m, "router.snapshot", "rt_dump 1", &after, canon_dump);
+                c.ask(rep, m, "router.snapshot", "rt_dump 0", &self_after, canon_dump);
+                let gl = format!("g_dump 1 {} {}", nats(&c.nodes), nats(&c.edge_ids));
+                c.ask(rep, m, "graph.snapshot", &gl, &canon_gdump(&gafter), canon_gdump);
+                let gl0 = format!("g_dump 0 {} {}", nats(&c.nodes), nats(&c.edge_ids));
+                c.ask(rep, m, "graph.snapshot", &gl0, &canon_gdump(&gself), canon_gdump);
+                let hs: Vec<u64> = c.hashes.iter().map(|h| h.as_u64()).collect();
+                c.ask(rep, m, "blob.snapshot", &format!("b_dump 1 {}", nats(&hs)), &bafter, ident);
+            }
+            rep.case("router", Some(&format!("snapshot|{}|{}", fmt.name(), fnv(&c.trace.join(";")))));
+            Some(loaded)
+        }
+    }
+}
+
+impl RouterCase {
+    fn ask_noop(&mut self, rep: &mut Report, stream: &str, line: &str, imp: &str, model: &str) {
+        self.trace.push(line.to_string());
+        let trace = &self.trace;
+        if self.live && !rep.compare(stream, || json!({"ops": trace.iter().rev().take(40).rev().collect::<Vec<_>>()}), imp, model) {
+            self.live = false;
+        }
+    }
+}
+
+/// graph-tensor clauses on the real outputs: `before` = the saved graph before the save, `after` = the
+/// loaded graph, `selfafter` = the saved graph after the save
+fn graph_oracle(rep: &mut Report, seen: &mut Seen, before: &str, after: &str, selfafter: &str, input: &J) {
+    let sec = |s: &str, name: &str| s.split('#').find_map(|x| x.strip_prefix(name).map(str::to_string)).unwrap_or_default();
+    let targets = |s: &str| -> String {
+        // out=n>dst:id,dst:id|...  ->  n>dst,dst|...
+        s.split('|').map(|it| match it.split_once('>') {
+            Some((n, ps)) => format!("{n}>{}", ps.split(',').map(|p| p.split(':').next().unwrap_or("")).collect::<Vec<_>>().join(",")),
+            None => it.to_string(),
+        }).collect::<Vec<_>>().join("|")
+    };
+    let (ob, oa) = (sec(before, "out="), sec(after, "out="));
+    if ob != oa {
+        if targets(&ob) == targets(&oa) {
+            seen.finding(rep, "tensor_store.graph_tensor.restore/edge_ids_renumbered", "outgoing() of the loaded graph tensor lists the same targets under other edge ids than the saved one (restore re-adds the edges and numbers them 0, 1, 2 … in snapshot order)", json!({"case": input, "saved_outgoing": ob, "loaded_outgoing": oa}));
+        } else {
+            seen.violation(rep, "tensor_store.graph_tensor.restore/outgoing_not_restored", "outgoing() of the loaded graph tensor lists other targets than the saved one", json!({"case": input, "saved_outgoing": ob, "loaded_outgoing": oa}));
+        }
+    }
+    // incoming(): entries of the SAVED graph whose edge id is not a live edge (outgoing lists every live
+    // edge) are deleted edges that a merge brought back; they are judged separately
+    let live_ids: std::collections::BTreeSet<String> = ob.split('|').flat_map(|it| it.split_once('>').map_or(vec![], |(_, ps)| ps.split(',').filter_map(|p| p.split_once(':').map(|x| x.1.to_string())).collect())).collect();
+    let drop_stale = |s: &str| -> String {
+        s.split('|').map(|it| match it.split_once('<') {
+            Some((n, ps)) => {
+                let v: Vec<&str> = ps.split(',').filter(|p| p.split_once(':').is_some_and(|x| live_ids.contains(x.1))).collect();
+                format!("{n}<{}", if v.is_empty() { "-".to_string() } else { v.join(",") })
+            }
+            None => it.to_string(),
+        }).collect::<Vec<_>>().join("|")
+    };
+    let ib_raw = sec(before, "in=");
+    let (ib, ia) = (drop_stale(&ib_raw), sec(after, "in="));
+    if ib != ib_raw {
+        seen.finding(rep, "tensor_store.graph_tensor.merge/deleted_edges_reappear_in_incoming", "incoming() of the graph tensor being saved lists edges that were deleted (an earlier merge, automatic or by a save, emptied the deleted set without pruning the incoming index)", json!({"case": input, "incoming": ib_raw, "live_edges": ob}));
+    }
+    if ib != ia {
+        let srcs = |s: &str| -> String {
+            s.split('|').map(|it| match it.split_once('<') {
+                Some((n, ps)) => { let mut v: Vec<&str> = ps.split(',').map(|p| p.split(':').next().unwrap_or("")).collect(); v.sort_unstable(); format!("{n}<{}", v.join(",")) }
+                None => it.to_string(),
+            }).collect::<Vec<_>>().join("|")
+        };
+        if srcs(&ib) == srcs(&ia) {
+            seen.finding(rep, "tensor_store.graph_tensor.restore/edge_ids_renumbered", "incoming() of the loaded graph tensor lists the same sources under other edge ids", json!({"case": input, "saved_incoming": ib, "loaded_incoming": ia}));
+        } else {
+            seen.violation(rep, "tensor_store.graph_tensor.restore/incoming_not_restored", "incoming() of the loaded graph tensor lists other sources than the saved one", json!({"case": input, "saved_incoming": ib, "loaded_incoming": ia}));
+        }
+    }
+    let (db, da) = (sec(before, "data="), sec(after, "data="));
+    if db != da {
+        seen.violation(rep, "tensor_store.graph_tensor.restore/edge_data_not_restored", "get_edge_data differs for an edge id", json!({"case": input, "saved": db, "loaded": da}));
+    } else if ob != oa && db != "-" && db.split('&').any(|e| !e.ends_with("~notfound")) {
+        seen.finding(rep, "tensor_store.graph_tensor.restore/edge_data_attached_to_other_edge", "edge data is keyed by edge id and came back unchanged while the edges were renumbered: the data now belongs to another edge (or to none)", json!({"case": input, "saved_outgoing": ob, "loaded_outgoing": oa, "edge_data": db}));
+    }
+    let cnt = |s: &str| s.split('#').last().unwrap_or("").split(' ').find_map(|p| p.strip_prefix("edges=").map(str::to_string)).unwrap_or_default();
+    if cnt(before) != cnt(after) {
+        seen.violation(rep, "tensor_store.graph_tensor.restore/edge_count_not_restored", "edge_count() differs", json!({"case": input, "saved": cnt(before), "loaded": cnt(after)}));
+    }
+    // the save itself (snapshot() merges): nothing the saved graph answers may change
+    let strip_pending = |s: &str| s.rsplit_once("#pending=").map_or(s.to_string(), |(a, b)| format!("{a}#{}", b.split(' ').nth(1).unwrap_or("")));
+    if strip_pending(before) != strip_pending(selfafter) {
+        let only_incoming = sec(before, "out=") == sec(selfafter, "out=") && sec(before, "data=") == sec(selfafter, "data=") && cnt(before) == cnt(selfafter);
+        if only_incoming {
+            seen.finding(rep, "tensor_store.graph_tensor.merge/deleted_edges_reappear_in_incoming", "after the save, incoming() of the SAVED graph tensor lists deleted edges again (snapshot() merges; merge() empties the deleted set without pruning the incoming index)", json!({"case": input, "incoming_before_save": sec(before, "in="), "incoming_after_save": sec(selfafter, "in=")}));
+        } else {
+            seen.violation(rep, "tensor_store.graph_tensor.snapshot/save_changes_the_saved_graph", "saving changed what the saved graph tensor answers", json!({"case": input, "before": before, "after": selfafter}));
+        }
+    }
+}
+
+fn stream_router(rep: &mut Report, m: &mut Model, root: &Rng, thorough: bool, sc: &mut Scratch) {
+    let mut r = root.fork("router");
+    let mut seen = Seen(BTreeMap::new());
+    let (keep, prune) = probe_graph_fixes();
+    rep.hit(&format!("router.real_code.graph_restore_keeps_edge_ids.{keep}"));
+    rep.hit(&format!("router.real_code.graph_merge_prunes_incoming.{prune}"));
+    for b in [
+        "router.put.emb.right_dimension", "router.put.emb.wrong_dimension", "router.put.emb.no_embedding_field", "router.put.emb.embedding_not_a_vector",
+        "router.put.emb.readd_after_delete", "router.put.emb.overwrite", "router.put.cache.evicts", "router.put.cache.update_in_place", "router.delete.emb", "router.delete.cache",
+        "router.delete.notfound", "router.graph.auto_merge", "router.graph.delete_edge", "router.graph.delete_then_snapshot", "router.graph.out_of_order_sources",
+        "router.blob.sealed_segment", "router.blob.duplicate_append", "router.blob.garbage_then_snapshot", "router.snapshot.bytes", "router.snapshot.file_plain", "router.snapshot.file_zstd",
+        "router.snapshot.then_more_ops", "router.snapshot.loaded_router_adopted",
+    ] {
+        rep.expected_branches.push(b.to_string());
+    }
+    let types: Vec<String> = vec!["".into(), "a".into(), "b".into(), "default".into(), "знает".into()];
+    let n_cases = if thorough { 400 } else { 40 };
+    for case_no in 0..n_cases {
+        // directed shapes first: the shortest histories in which one guard is all that stands
+        // between the op sequence and a wrong restore
+        let dim = *r.pick(&[2usize, 3, 4, 8, 16, 255, 384]);
+        let cap = *r.pick(&[1usize, 2, 3, 5, 10_000]);
+        let threshold = *r.pick(&[1usize, 2, 3, 10_000]);
+        let seg = *r.pick(&[16usize, 64, 1 << 20]);
+        let cfg = SlabRouterConfig { embedding_dim: dim, cache_capacity: cap, graph_merge_threshold: threshold, blob_segment_size: seg, ..SlabRouterConfig::default() };
+        let mut c = RouterCase { rt: SlabRouter::with_config(&cfg), dim, cap, nodes: (0..7).collect(), edge_ids: vec![], hashes: vec![], live: true, trace: vec![] };
+        let first = format!("rt_new {dim} {cap} {threshold} {seg} {} {}", u8::from(keep), u8::from(prune));
+        let ans = m.ask(&first);
+        c.ask_noop(rep, "router.ops", &first, "ok", &ans);
+        let n_ops = if case_no < 6 { 0 } else { 10 + r.below(if thorough { 120 } else { 50 }) };
+        let mut script: Vec<(u8, String)> = vec![];
+        match case_no {
+            // emb key deleted and re-added: the vocabulary keeps the tombstoned entry, the slab the new id
+            0 => script = vec![(0, "emb:a".into()), (0, "emb:b".into()), (1, "emb:a".into()), (0, "emb:a".into()), (9, String::new())],
+            // graph: sources out of order, edge data on the first edge, then one edge deleted
+            1 => script = vec![(20, "5 1 a 1".into()), (20, "2 3 b 0".into()), (23, "0".into()), (9, String::new()), (21, "0".into()), (9, String::new())],
+            // blob: garbage mark, duplicate append, sealed segment
+            2 => script = vec![(30, "8".into()), (30, "8".into()), (30, "40".into()), (30, "40".into()), (31, "0".into()), (9, String::new())],
+            // cache fuller than its capacity, then an update in place
+            3 => script = vec![(0, "_cache:0".into()), (0, "_cache:1".into()), (0, "_cache:2".into()), (0, "_cache:3".into()), (0, "_cache:4".into()), (0, "_cache:5".into()), (0, "_cache:1".into()), (9, String::new())],
+            // wrong-dimension embedding over a right one: the slab entry must go, metadata keeps the value
+            4 => script = vec![(0, "emb:a".into()), (40, "emb:a".into()), (9, String::new()), (41, "emb:a".into()), (9, String::new())],
+            // graph: delete, snapshot (merges), then more edges and another snapshot
+            5 => script = vec![(20, "1 2 a 1".into()), (20, "2 3 a 1".into()), (20, "1 3 b 0".into()), (21, "1".into()), (9, String::new()), (20, "6 0 a 1".into()), (20, "0 6  1".into()), (9, String::new())],
+            _ => {}
+        }
+        let mut i = 0u64;
+        let mut snaps = 0;
+        loop {
+            let (op, arg) = if (i as usize) < script.len() {
+                script[i as usize].clone()
+            } else if case_no < 6 || i >= script.len() as u64 + n_ops {
+                break;
+            } else {
+                let k = r.below(100);
+                let op = match k {
+                    0..=37 => 0u8,
+                    38..=47 => 1,
+                    48..=55 => 2,
+                    56..=58 => 3,
+                    59..=61 => 4,
+                    62..=66 => 9,
+                    67 => 5,
+                    68..=79 => 20,
+                    80..=83 => 21,
+                    84 => 22,
+                    85..=87 => 23,
+                    88..=93 => 30,
+                    94..=95 => 31,
+                    _ => 2,
+                };
+                (op, String::new())
+            };
+            i += 1;
+            match op {
+                0 | 40 | 41 => {
+                    // put
+                    let key = if arg.is_empty() { gen_router_key(&mut r) } else { arg.clone() };
+                    let d = if op == 40 {
+                        let mut d = TensorData::new();
+                        d.set("_embedding", TensorValue::Vector(vec![1.0; c.dim + 1]));
+                        d
+                    } else if op == 41 {
+                        TensorData::new()
+                    } else {
+                        gen_router_data(&mut r, rep, &key, c.dim)
+                    };
+                    let is_cache = key.starts_with("_cache:");
+                    let cache_before = if is_cache { c.rt.cache.scan_prefix("") } else { vec![] };
+                    if key.starts_with("emb:") {
+                        if c.rt.index.contains(&key) {
+                            rep.hit("router.put.emb.overwrite");
+                        } else if (0..c.rt.index.total_entries()).any(|j| c.rt.index.key_for(EntityId::new(j as u64)).is_none()) {
+                            rep.hit("router.put.emb.readd_after_delete");
+                        }
+                    }
+                    let res = c.rt.put(&key, d.clone());
+                    let mut victim = 0usize;
+                    if is_cache {
+                        let after = c.rt.cache.scan_prefix("");
+                        if cache_before.contains(&key) {
+                            rep.hit("router.put.cache.update_in_place");
+                        } else if cache_before.len() == c.cap {
+                            rep.hit("router.put.cache.evicts");
+                            victim = cache_before.iter().zip(after.iter()).position(|(a, b)| a != b).unwrap_or(0);
+                        }
+                    }
+                    let line = format!("rt_put 0 {} {} {victim}", hexs(&key), enc_data_m(&d));
+                    c.ask(rep, m, "router.ops", &line, if res.is_ok() { "ok" } else { "err" }, ident);
+                }
+                1 => {
+                    let key = if arg.is_empty() { gen_router_key(&mut r) } else { arg.clone() };
+                    let res = c.rt.delete(&key);
+                    rep.hit(if res.is_err() { "router.delete.notfound" } else if key.starts_with("emb:") { "router.delete.emb" } else if key.starts_with("_cache:") { "router.delete.cache" } else { "router.delete.other" });
+                    c.ask(rep, m, "router.ops", &format!("rt_del 0 {}", hexs(&key)), if res.is_ok() { "ok" } else { "notfound" }, ident);
+                }
+                2 => {
+                    let key = gen_router_key(&mut r);
+                    let res = c.rt.get(&key).map_or("notfound".to_string(), |d| enc_data_m(&d));
+                    c.ask(rep, m, "router.ops", &format!("rt_get 0 {}", hexs(&key)), &res, canon_data);
+                }
+                3 => {
+                    let key = gen_router_key(&mut r);
+                    let res = u8::from(c.rt.exists(&key)).to_string();
+                    c.ask(rep, m, "router.ops", &format!("rt_exists 0 {}", hexs(&key)), &res, ident);
+                }
+                4 => {
+                    let pre = *r.pick(&["", "emb:", "_cache:", "user:", "e", "node:", "x"]);
+                    let mut keys: Vec<String> = c.rt.scan(pre).iter().map(|k| hexs(k)).collect();
+                    keys.sort();
+                    fn canon_keys(s: &str) -> String {
+                        if s == "-" {
+                            return s.to_string();
+                        }
+                        let mut v: Vec<&str> = s.split(',').collect();
+                        v.sort_unstable();
+                        v.join(",")
+                    }
+                    c.ask(rep, m, "router.ops", &format!("rt_scan 0 {}", hexs(pre)), &join_or(",", &keys), canon_keys);
+                }
+                5 => {
+                    c.rt.clear();
+                    c.edge_ids.clear();
+                    c.hashes.clear();
+                    rep.hit("router.clear");
+                    c.ask(rep, m, "router.ops", "rt_clear 0", "ok", ident);
+                }
+                20 => {
+                    // graph: add_edge
+                    let (src, dst, ty, directed) = if arg.is_empty() {
+                        (r.below(7), r.below(7), r.pick(&types).clone(), r.chance(1, 2))
+                    } else {
+                        let p: Vec<&str> = arg.split(' ').collect();
+                        (p[0].parse().unwrap(), p[1].parse().unwrap(), p[2].to_string(), p[3] == "1")
+                    };
+                    let pending_before = c.rt.graph.pending_count();
+                    let last_src = c.trace.iter().rev().find_map(|l| l.strip_prefix("g_add 0 ").and_then(|x| x.split(' ').next().and_then(|s| s.parse::<u64>().ok())));
+                    if last_src.is_some_and(|s| s > src) {
+                        rep.hit("router.graph.out_of_order_sources");
+                    }
+                    let id = c.rt.graph.add_edge(EntityId::new(src), EntityId::new(dst), &ty, directed);
+                    if c.rt.graph.pending_count() <= pending_before {
+                        rep.hit("router.graph.auto_merge");
+                    }
+                    c.edge_ids.push(id.as_u64());
+                    c.ask(rep, m, "graph.ops", &format!("g_add 0 {src} {dst} {} {}", hexs(&ty), u8::from(directed)), &id.as_u64().to_string(), ident);
+                }
+                21 => {
+                    let id = if arg.is_empty() { r.below(c.edge_ids.len() as u64 + 2) } else { arg.parse().unwrap() };
+                    let res = c.rt.graph.delete_edge(tensor_store::EdgeId::new(id));
+                    if res {
+                        rep.hit("router.graph.delete_edge");
+                    }
+                    c.ask(rep, m, "graph.ops", &format!("g_del 0 {id}"), &u8::from(res).to_string(), ident);
+                }
+                22 => {
+                    c.rt.graph.merge();
+                    c.ask(rep, m, "graph.ops", "g_merge 0", "ok", ident);
+                }
+                23 => {
+                    let id = if arg.is_empty() { r.below(c.edge_ids.len() as u64 + 1) } else { arg.parse().unwrap() };
+                    let mut d = TensorData::new();
+                    d.set("w", TensorValue::Scalar(ScalarValue::Int(id as i64 * 10 + 1)));
+                    c.rt.graph.set_edge_data(tensor_store::EdgeId::new(id), d.clone());
+                    if !c.edge_ids.contains(&id) {
+                        c.edge_ids.push(id);
+                    }
+                    c.ask(rep, m, "graph.ops", &format!("g_setdata 0 {id} {}", enc_data_m(&d)), "ok", ident);
+                }
+                30 => {
+                    let n = if arg.is_empty() { *r.pick(&[0usize, 1, 8, 15, 16, 17, 40, 100]) } else { arg.parse().unwrap() };
+                    let data: Vec<u8> = if arg.is_empty() && !r.chance(1, 4) { r.bytes(n) } else { vec![n as u8; n] };
+                    let chunks_before = c.rt.blobs.chunk_count();
+                    let segs_before = c.rt.blobs.segment_count();
+                    let h = c.rt.blobs.append(&data);
+                    if c.rt.blobs.chunk_count() == chunks_before {
+                        rep.hit("router.blob.duplicate_append");
+                    }
+                    if c.rt.blobs.segment_count() > segs_before {
+                        rep.hit("router.blob.sealed_segment");
+                    }
+                    if !c.hashes.contains(&h) {
+                        c.hashes.push(h);
+                    }
+                    c.ask(rep, m, "blob.ops", &format!("b_append 0 {} {}", h.as_u64(), hex(&data)), "ok", ident);
+                }
+                31 => {
+                    if !c.hashes.is_empty() {
+                        let h = if arg.is_empty() { *r.pick(&c.hashes) } else { c.hashes[arg.parse::<usize>().unwrap().min(c.hashes.len() - 1)] };
+                        c.rt.blobs.mark_garbage(&h);
+                        rep.hit("router.blob.mark_garbage");
+                        c.ask(rep, m, "blob.ops", &format!("b_mark 0 {}", h.as_u64()), "ok", ident);
+                    }
+                }
+                _ => {
+                    // snapshot + restore of the state reached so far
+                    if c.trace.iter().any(|l| l.starts_with("g_del 0")) {
+                        rep.hit("router.graph.delete_then_snapshot");
+                    }
+                    if c.trace.iter().any(|l| l.starts_with("b_mark 0")) {
+                        rep.hit("router.blob.garbage_then_snapshot");
+                    }
+                    if snaps > 0 {
+                        rep.hit("router.snapshot.then_more_ops");
+                    }
+                    let fmt = *r.pick(&[Fmt::Bytes, Fmt::Bytes, Fmt::FilePlain, Fmt::FileZstd]);
+                    let loaded = router_snapshot_check(rep, m, &mut seen, &mut c, fmt, sc, &types);
+                    snaps += 1;
+                    // the loaded router keeps working: now and then it becomes the subject of the following ops
+                    if let Some(l) = loaded {
+                        if r.chance(1, 3) {
+                            rep.hit("router.snapshot.loaded_router_adopted");
+                            c.rt = l;
+                            c.ask(rep, m, "router.ops", "rt_adopt", "ok", ident);
+                        }
+                    }
+                }
+            }
+            // state after every few ops
+            if i % 8 == 0 || (i as usize) == script.len() {
+                let d = real_dump(&c.rt);
+                c.ask(rep, m, "router.state", "rt_dump 0", &d, canon_dump);
+                let g = canon_gdump(&real_gdump(&c.rt, &c.nodes, &c.edge_ids, &types));
+                let line = format!("g_dump 0 {} {}", nats(&c.nodes), nats(&c.edge_ids));
+                c.ask(rep, m, "graph.state", &line, &g, canon_gdump);
+                let hs: Vec<u64> = c.hashes.iter().map(|h| h.as_u64()).collect();
+                let b = real_bdump(&c.rt, &c.hashes);
+                c.ask(rep, m, "blob.state", &format!("b_dump 0 {}", nats(&hs)), &b, ident);
+            }
+        }
+        // every case ends with a snapshot through each form
+        for fmt in [Fmt::Bytes, Fmt::FilePlain, Fmt::FileZstd] {
+            let _ = router_snapshot_check(rep, m, &mut seen, &mut c, fmt, sc, &types);
+        }
+        if case_no == 1 {
+            rep.sample(json!({"stream": "router", "ops": c.trace.iter().take(12).collect::<Vec<_>>()}));
+        }
+        rep.case("router", Some(&format!("{case_no}|{}", fnv(&c.trace.join(";")))));
+    }
+}
+
 // ------------------------------------------------------------------ main
 
 fn main() {
@@ -2592,18 +3310,48 @@ fn main() {
     let root = Rng::new(args.seed);
     let scale: u64 = if args.thorough { 10 } else { 1 };
     let mut sc = Scratch::new();
-    stream_directed(&mut rep, &mut m, &mut sc);
-    stream_names(&mut rep, &mut m, &root, scale);
-    stream_detect(&mut rep, &mut m, &root, scale, &mut sc);
-    stream_emb(&mut rep, &mut m, &root, scale);
-    stream_values(&mut rep, &mut m, &root, scale, &mut sc);
-    stream_c2t(&mut rep, &mut m, &root, scale, &mut sc);
-    stream_validate(&mut rep, &mut m, &root, scale, &mut sc);
-    stream_stores(&mut rep, &mut m, &root, args.thorough, &mut sc);
-    stream_route(&mut rep, &mut m, &root, scale, &mut sc);
-    stream_crash(&mut rep, &mut m, &root, args.thorough, &mut sc);
-    stream_fsops(&mut rep, &mut m, &root, scale, &mut sc);
-    stream_save_after_crash(&mut rep, &mut m, &root, args.thorough, &mut sc);
+    // development aid: CORR_SNAP_ONLY=router,stores runs only the named streams (never set by `check`)
+    let only = std::env::var("CORR_SNAP_ONLY").ok();
+    let on = |name: &str| only.as_ref().map_or(true, |o| o.split(',').any(|x| x == name));
+    if on("directed") {
+        stream_directed(&mut rep, &mut m, &mut sc);
+    }
+    if on("router") {
+        stream_router(&mut rep, &mut m, &root, args.thorough, &mut sc);
+    }
+    if on("names") {
+        stream_names(&mut rep, &mut m, &root, scale);
+    }
+    if on("detect") {
+        stream_detect(&mut rep, &mut m, &root, scale, &mut sc);
+    }
+    if on("emb") {
+        stream_emb(&mut rep, &mut m, &root, scale);
+    }
+    if on("values") {
+        stream_values(&mut rep, &mut m, &root, scale, &mut sc);
+    }
+    if on("c2t") {
+        stream_c2t(&mut rep, &mut m, &root, scale, &mut sc);
+    }
+    if on("validate") {
+        stream_validate(&mut rep, &mut m, &root, scale, &mut sc);
+    }
+    if on("stores") {
+        stream_stores(&mut rep, &mut m, &root, args.thorough, &mut sc);
+    }
+    if on("route") {
+        stream_route(&mut rep, &mut m, &root, scale, &mut sc);
+    }
+    if on("crash") {
+        stream_crash(&mut rep, &mut m, &root, args.thorough, &mut sc);
+    }
+    if on("fsops") {
+        stream_fsops(&mut rep, &mut m, &root, scale, &mut sc);
+    }
+    if on("save_after_crash") {
+        stream_save_after_crash(&mut rep, &mut m, &root, args.thorough, &mut sc);
+    }
     rep.note("bitcode, zstd and the tensor-train kernels are opaque: the model frames and routes their bytes, the harness checks their round-trip and their rejection of truncated input on the real crates");
     rep.note("crash model of the property: any prefix of the save's file operations (create temp, write header, write body, sync_all, rename), the write in flight cut at any byte, rename atomic; on top of each crash state, power loss = un-synced bytes of the path's file cut at any byte (none exist with sync_all before the rename); durability of the directory entry is not modelled");
     rep.note("crash clause over a SEQUENCE of saves: an interrupted save leaves its temp file (any prefix of the snapshot, or all of it) in a real directory, then the real save runs on that directory (in process, and once per format in a strace'd child after a first save really killed by RLIMIT_FSIZE): it must succeed, the path must load as exactly the store just saved, carry no byte of the stale temp file, and no temp file may remain; chains crash / crash / save are covered; the model's file operations (create = truncate, open-without-truncate, write, write-at-offset, fsync, rename) are run against std::fs on a real directory");
